@@ -802,6 +802,7 @@ mod sync {
                                 if CATCH.load(Ordering::SeqCst) {
                                     /* interrupted after the check above and before the waker was published:
                                        the handler found no waker (or a stale one) and nobody will wake this task */
+                                    #[cfg(ohkami_verif)] crate::__verif__::sched("p.recheck-ready");
                                     return Poll::Ready(None)
                                 }
                                 #[cfg(ohkami_verif)] crate::__verif__::sched("p.pending");
